@@ -256,6 +256,21 @@ def r01_5(ctx, A):
                       'sharing a prefix transition must split outputs as: m = min(t.out, out); t.out := m; out := out - m; remainder t.out_old - m pushed onto the NEXT node iff non-zero (min ok %s, out ok %s, t.out ok %s, remainder ok %s)' % (okp, ok_out, ok_t, rem_ok), fn=f)
         if n == 0:
             ctx.undecided(R, 'prefix-step', 'no prefix-sharing step recognised', fn=f)
+    # which of the two prefix routines runs depends ONLY on whether a value was given: the output-free scan never moves outputs, so
+    # using it for a key that has a value (even 0) leaves outputs of the shared prefix where they are and they leak onto the new key
+    io = [m for m in A.builder_methods() if m.path.endswith('::insert_output')]
+    if io:
+        io = io[0]
+        optp = [i for i in range(1, io.arg_count + 1) if io.local_ty(i).startswith('std::option::Option<raw::Output')]
+        nsel = 0
+        for p in explore(io, max_visits=1, havoc=True, limit=2000):
+            for c in path_calls(p, expand=False):
+                if c[2] == 'raw::build::UnfinishedNodes::find_common_prefix' and optp:
+                    nsel += 1
+                    d = [x for x in p.cdecisions() if x[0] < c[0] and x[2][0] == 'discr' and x[2][1] == ('param', io.local_name(optp[0]), optp[0])]
+                    ctx.check(R, bool(d) and d[-1][3] == 0, 'prefix-routine-choice', 'the output-free prefix scan is used for a key that carries a value: outputs sitting on the shared prefix are not redistributed and end up on the new key', fn=io)
+        if nsel == 0:
+            ctx.undecided(R, 'prefix-routine-choice', 'the choice between the two prefix routines was not recognised', fn=io)
     # sibling of the above for sets (no outputs): the shared prefix is the longest run of positions where the pending transition's
     # byte EQUALS the key byte - an ordering comparison, or a comparison against something else, merges different keys
     f = lib.fn('raw::build::UnfinishedNodes::find_common_prefix')
